@@ -80,6 +80,9 @@ def run_batch_ext(ctx, cases, want_may=True, tag='cvx'):
                     reqs.append((('cv_circ_realizable', [ck, peps]), (ev, 'real', tx_id)))
                     if run.get('circ_must'):
                         reqs.append((('cv_circ_must', [ck, x]), (ev, 'must', tx_id)))
+            if not run.get('skip_oracle'):
+                for api, arg, kind, fid in CK.fusion_requests(c, run, by_tx, prots, peps):
+                    reqs.append(((api, arg), (ev, kind, fid)))
             evs.append(ev)
     outs = O.call_parallel([q for q, _ in reqs], jobs=ctx.jobs)
     real = collections.defaultdict(lambda: None)
